@@ -96,6 +96,8 @@ SEEDS = {
            "num_tracks >= 2 and input sequences whose absolute view is live when tokenise runs (built with add_absolute_message, or returned by detokenise): every note ends up in track 0"),
  "C04-c": ("C04", "RelativeSequence.to_absolute_sequence: the cap flag replaced by `if len(messages) > 0 and messages[-1].time < current_point_in_time`",
            "a sequence whose relative view consists of waits only (padded empty sequence, rest piece of a split): the absolute view is empty, the duration is lost / the sequence unreadable"),
+ "C03-c": ("C03", "tokenise: `state_dict: dict = None` + `if state_dict is None: state_dict = dict()` replaced by the shared mutable default `state_dict: dict = {}`",
+           "an earlier stateless tokenise call, an un-fused running value with running values on, and a first note whose value equals the last value of the earlier call: the whole-piece stream omits the explicit token"),
  "C17-a": ("C17", "equals: the tick comparison moved into the NOTE_ON branch; time and key signatures are compared by value only",
            "two sequences identical except for the tick of one signature, with no compared event of the channel between the old and the new tick"),
 }
